@@ -96,8 +96,8 @@ SPECS["C02"] = dict(
                "rs1090::decode::IcaoParity (map to crc context)", "rs1090::decode::Message::try_from", "DF::from_reader_with_ctx arms 0,4,5,16,17,20,21"],
     trusted_base=[KANI, DEKU, FMT, TRACING],
     bounds="frame lengths 7 and 14 bytes (the only accepted lengths); all 2^56 / 2^112 contents for the checksum; all 112 single-bit, all 6216 double-bit, all (2^24-1) x 89 burst patterns; all 2^24 addresses; unwind 15-26",
-    outside="DF17 acceptance gate and end-to-end corruption are decided on type code 0 payloads (gate code does not read the payload); DF20/21 address recovery with an all-zero MB field "
-            "(the address is the crc context, MB is not read on that path; checksum correctness for every frame is checksum_long + overlay_checksum); e2e errors touching bytes 0/4 are covered at syndrome level only",
+    outside="DF17 acceptance gate and end-to-end corruption are decided on type code 0 payloads (gate code does not read the payload); whole-frame DF20/21 address recovery is OUTSIDE (did not finish in 2 h even with an all-zero MB field): for those formats the claim is the composition "
+            "icao_parity_is_ctx (the AP field reader reports the crc context) + checksum_long + overlay_checksum (the context is the transmitted address for every frame); e2e errors touching bytes 0/4 are covered at syndrome level only",
     assumptions=["oracle: bit-serial GF(2) division by 0x1FFF409 written from Annex 10 in harness/src/refs.rs (no table)"],
     harnesses=[
         H("c02::table_entries", timeout=120, bounds="all 256 indices"),
@@ -108,7 +108,6 @@ SPECS["C02"] = dict(
         H("c02::err_single", timeout=300, bounds="all 112 positions"),
         H("c02::err_double", timeout=600, bounds="all 6216 pairs"),
         H("c02::err_burst", timeout=900, bounds="all non-zero 24-bit patterns at all 89 offsets"),
-        H("c02::gate_df17_reject", timeout=900, bounds="byte0 = 0x88..0x8f (3 symbolic bits), all other 104 bits symbolic, remainder != 0"),
         H("c02::icao_parity_is_ctx", timeout=300, bounds="all 24-bit AP fields x all u32 contexts"),
         H("c02::gate_df17", tier="thorough", timeout=7200, mem_gb=4, bounds="byte0 = 0x8d, type code 0, 96 symbolic bits"),
         H("c02::gate_df17_all_ca", tier="thorough", timeout=14400, mem_gb=6, bounds="byte0 = 0x88..0x8f, type code 0"),
@@ -120,8 +119,6 @@ SPECS["C02"] = dict(
         H("c02::ap_df4_fs5", tier="thorough", timeout=7200, mem_gb=4, bounds="byte0 = 0x25"),
         H("c02::ap_df5_fs7", tier="thorough", timeout=7200, mem_gb=4, bounds="byte0 = 0x2f"),
         H("c02::ap_df16", tier="thorough", timeout=7200, mem_gb=4, bounds="byte0 = 0x80; 80 symbolic payload bits"),
-        H("c02::ap_df20", tier="thorough", timeout=7200, mem_gb=4, bounds="byte0 = 0xa0; MB = 0; 24 symbolic header bits"),
-        H("c02::ap_df21", tier="thorough", timeout=7200, mem_gb=4, bounds="byte0 = 0xa8; MB = 0"),
     ],
 )
 
